@@ -17,7 +17,7 @@ CONSTANTS NameSet,     \* subset of {"A", "B", "_internal/X", ""}
 
 Star == 42
 Str(s) == CASE s = "A" -> <<65>> [] s = "B" -> <<66>> [] s = "Z" -> <<90>> [] s = "" -> <<>>
-            [] s = "*" -> <<42>> [] s = "A*" -> <<65, 42>> [] s = "*A" -> <<42, 65>>
+            [] s = "*" -> <<42>> [] s = "A*" -> <<65, 42>> [] s = "*A" -> <<42, 65>> [] s = "A*A" -> <<65, 42, 65>>
             [] s = "_internal/X" -> <<95, 105, 110, 116, 101, 114, 110, 97, 108, 47, 88>>
             [] s = "_internal/*" -> <<95, 105, 110, 116, 101, 114, 110, 97, 108, 47, 42>>
             [] s = "_*" -> <<95, 42>>
@@ -44,6 +44,8 @@ CallerPairs ==
                      [action |-> <<"put">>, secret |-> <<Str("*A")>>],
                      [action |-> <<>>, secret |-> <<Str("*")>>],
                      [action |-> <<"delete", "activate">>, secret |-> <<>>]>>>>}
+  \* a pattern whose literal head and tail overlap in an existing name: "A*A" must not match "A"
+  \cup {<<"overlap", <<[action |-> AllActs, secret |-> <<Str("A*A")>>]>>>>}
 CallerTab == [c \in {x[1] : x \in CallerPairs} |-> (CHOOSE x \in CallerPairs : x[1] = c)[2]]
 Callers == CASE CallerMode = "su" -> {"su"}
              [] CallerMode = "few" -> {"su", "none", "get:A*", "split:put"}
